@@ -13,6 +13,7 @@ import (
 	"sort"
 	"strconv"
 	"strings"
+	"sync/atomic"
 	"time"
 )
 
@@ -69,6 +70,8 @@ type Ctx struct {
 	narrow     []interface{} // smaller specs proposed by the run itself (tried first when minimising)
 	vspec      interface{}   // spec attached to violations raised outside an episode (parent-side work)
 }
+
+const opHangLimit = 30 * time.Second
 
 func nowS() float64 { return float64(time.Now().UnixNano()) / 1e9 }
 
@@ -374,6 +377,30 @@ func workerMain(def *CheckDef, tier string, w, W int, out string) int {
 			os.Exit(2)
 		}
 	}()
+	// watchdog: a library call that does not return within opHangLimit is a hang (a draw that spins
+	// without reading the source cannot be stopped from inside the process): report it for the episode
+	// in progress, keep what was found so far, and leave
+	var curEpisode struct {
+		i    int
+		seed uint64
+		spec interface{}
+	}
+	go func() {
+		for {
+			time.Sleep(time.Second)
+			s := atomic.LoadInt64(&opClock.start)
+			if s != 0 && time.Now().UnixNano()-s > int64(opHangLimit) {
+				raw, _ := json.Marshal(curEpisode.spec)
+				wst := newStats()
+				wst.Episodes = curEpisode.i/W + 1
+				wst.Violations = []Violation{{Property: def.ID, Class: "hang", Key: "hang", Detail: fmt.Sprintf("a library call did not return within %v (episode %d); the call neither finished nor read the random source without end", opHangLimit, curEpisode.i), Seed: curEpisode.seed, Spec: raw, Episode: curEpisode.i, Worker: w, Workers: W, BaseSeed: tierSeed(tier)}}
+				if b, err := json.Marshal(wst); err == nil {
+					os.WriteFile(out+".hang", b, 0644)
+				}
+				os.Exit(4)
+			}
+		}
+	}()
 	flush := func(st *Stats) {
 		st.Distinct = st.Distinct[:0]
 		for h := range st.distinct {
@@ -400,6 +427,7 @@ func workerMain(def *CheckDef, tier string, w, W int, out string) int {
 		} else {
 			spec = def.Gen(eseed, tier)
 		}
+		curEpisode.i, curEpisode.seed, curEpisode.spec = i, eseed, spec
 		vs, tr1, trouble := runSpec(def, st, tier, eseed, spec, false, scratch)
 		st.Episodes++
 		st.TranscriptSum += mix(uint64(i)+1, tr1)
@@ -546,6 +574,12 @@ func parentMain(def *CheckDef, tier string) int {
 					fmt.Printf("worker %d crash report (the code under test killed the process):\n%s\n", r.w, tail(string(cb), 1500))
 				}
 				trouble = true
+				if hb, err := os.ReadFile(wf + ".hang"); err == nil {
+					var hst Stats
+					if json.Unmarshal(hb, &hst) == nil {
+						total.Violations = append(total.Violations, hst.Violations...)
+					}
+				}
 				// keep whatever the worker had found before it died
 				if b, err := os.ReadFile(wf); err == nil {
 					var st Stats
@@ -830,6 +864,20 @@ func replayMain(path string) int {
 	}
 	installSimulator()
 	installOrderHooks()
+	go func() {
+		for {
+			time.Sleep(time.Second)
+			s := atomic.LoadInt64(&opClock.start)
+			if s != 0 && time.Now().UnixNano()-s > int64(opHangLimit) {
+				fmt.Fprintf(capt.realOut, "replay: property=%s class=hang key=hang: a library call did not return within %v\n", rf.Property, opHangLimit)
+				if rf.Class == "hang" {
+					fmt.Fprintf(capt.realOut, "VIOLATION property=%s replay=%s\n", rf.Property, path)
+					os.Exit(1)
+				}
+				os.Exit(2)
+			}
+		}
+	}()
 	st := newStats()
 	var vs []Violation
 	trouble := canaryTrouble(def)
